@@ -425,7 +425,9 @@ func (s *shadowState) onHint(ev *HintEvent, in []*V, out []frontend.Variable) {
 	case "SplitLimbsHint":
 		hon[0] = uMin(u64(0xFFFFFFFF), uDivSmall(in[0].S.Hon, 1<<32))
 		hon[1] = u64(0xFFFFFFFF)
-		if strings.HasPrefix(ev.Site, "goldilocks.(*Chip).RangeCheck<") || ev.Site == "goldilocks.(*Chip).RangeCheck" {
+		// requested by the canonical range check itself, directly or through a helper that
+		// merely wraps NewHint (first or second frame of the site)
+		if fs := strings.SplitN(ev.Site, "<", 3); fs[0] == "goldilocks.(*Chip).RangeCheck" || (len(fs) > 1 && fs[1] == "goldilocks.(*Chip).RangeCheck") {
 			in[0].S.Canon = true
 			s.cfg.Report.CanonMarks++
 		}
